@@ -31,6 +31,7 @@ http://www.musicxml.org/xml.html
 from __future__ import absolute_import
 
 import datetime
+from fractions import Fraction
 from functools import reduce
 from xml.dom.minidom import Document
 
@@ -103,11 +104,16 @@ def _bar2musicxml(bar):
     # bar attributes
     attributes = doc.createElement("attributes")
 
-    # calculate divisions by using the LCM
-    l = []
+    # the exact length of every entry in quarter notes (base value, dots and
+    # tuplet ratio), and the divisions per quarter note that make each of them
+    # a whole number of divisions
+    lengths = []
+    lcm = 1
     for nc in bar:
-        l.append(int(value.determine(nc[1])[0]))
-    lcm = _lcm(terms=l) * 4
+        (base, dots, actual, normal) = value.determine(nc[1])
+        length = Fraction(4) / Fraction(base) * (2 - Fraction(1, 2 ** dots)) * Fraction(normal, actual)
+        lengths.append(length)
+        lcm = lcm * length.denominator // _gcd(lcm, length.denominator)
     divisions = doc.createElement("divisions")
     divisions.appendChild(doc.createTextNode(str(lcm)))
     attributes.appendChild(divisions)
@@ -131,8 +137,7 @@ def _bar2musicxml(bar):
     time.appendChild(beattype)
     attributes.appendChild(time)
     bar_node.appendChild(attributes)
-    chord = doc.createElement("chord")
-    for nc in bar:
+    for (length, nc) in zip(lengths, bar):
         time = value.determine(nc[1])
         beat = time[0]
         note_cont = nc[2]
@@ -143,20 +148,20 @@ def _bar2musicxml(bar):
                 is_chord = True
         else:
             note_cont = [None]
-        for n in note_cont:
+        for (i, n) in enumerate(note_cont):
             note = _note2musicxml(n)
-            if is_chord:
-                note.appendChild(chord)
+            if is_chord and i > 0:
+                # every note of a chord but the first is marked
+                note.appendChild(doc.createElement("chord"))
 
             # convert the duration of the note
             duration = doc.createElement("duration")
-            duration.appendChild(doc.createTextNode(str(int(lcm * (4.0 / beat)))))
+            duration.appendChild(doc.createTextNode(str(int(length * lcm))))
             note.appendChild(duration)
 
             # check for dots
-            dot = doc.createElement("dot")
             for i in range(0, time[1]):
-                note.appendChild(dot)
+                note.appendChild(doc.createElement("dot"))
             if beat in value.musicxml:
                 type_node = doc.createElement("type")
                 type_node.appendChild(doc.createTextNode(value.musicxml[beat]))
